@@ -109,7 +109,9 @@ def gen_case(rng, force_shape=None):
         b = mid
         if kind in ("spiral", "plane_change"):
             kind = rng.choice(["burn_eci", "burn_ntw"])
-    return {"kind": "burn", "start": start.isoformat(), "step": step, "n": n, "t_on": int(a), "t_off": int(b), "burn": kind, "vec": vec, "mag": rng.choice([-1, 1]) * mag, "second": second,
+    # a second satellite burning over exactly the same interval (same event type), stored before or after this one's event
+    twin = rng.choice(["before", "after"]) if rng.random() < 0.25 else None
+    return {"kind": "burn", "twin": twin, "start": start.isoformat(), "step": step, "n": n, "t_on": int(a), "t_off": int(b), "burn": kind, "vec": vec, "mag": rng.choice([-1, 1]) * mag, "second": second,
             "model": rng.choice(["special_perturbations", "special_perturbations", "special_perturbations", "two_body"]), "shape": shape,
             "orbit": [rng.choice([6900.0, 7300.0, 12000.0, 42164.0]), rng.uniform(0, 120), rng.uniform(0, 360), rng.uniform(0, 360)]}
 
@@ -129,6 +131,13 @@ def build_cfg(case):
         ev = {"scope": "agent_propagation", "scope_instance_id": TID, "start_time": sk.iso(t1), "end_time": sk.iso(t2), "event_type": "finite_maneuver",
               "maneuver_mag": case["mag"], "maneuver_type": case["burn"], "planned": False}
     evs = [ev]
+    if case.get("twin"):
+        r2, v2 = sk.circ_state(case["orbit"][0] + 500.0, 40.0, 10.0, 200.0)
+        tg.append(sk.target_cfg(TID + 1, r2, v2))
+        ev2 = dict(ev, scope_instance_id=TID + 1)
+        if "acc_vector" in ev2:
+            ev2["acc_vector"] = [0.5 * c for c in reversed(ev["acc_vector"])]
+        evs = [ev2, ev] if case["twin"] == "before" else [ev, ev2]
     if case.get("second"):
         s2 = case["second"]
         evs.append({"scope": "agent_propagation", "scope_instance_id": TID, "start_time": sk.iso(start + timedelta(seconds=s2["t_on"])),
